@@ -174,11 +174,21 @@ def run(prog: Program, rep, thorough: bool) -> None:
         violated = [f for f, _a, _w in STEMS if viol.get(f)]
         if leaf.kind == 'raise':
             n_raise += 1
-            reason = leaf.state.env.get('reason')
-            rtxt = reason.value if isinstance(reason, Const) else None
-            if rtxt is None:
-                # reason passed inline
-                rtxt = None
+            # the reason stated: the first argument of the RangeError raised, evaluated in the state of this path
+            rnode = leaf.node if isinstance(getattr(leaf, 'node', None), ast.Raise) else None
+            rtxt = None
+            if rnode is not None and isinstance(rnode.exc, ast.Call) and rnode.exc.args:
+                try:
+                    rv_ = ev.eval(rnode.exc.args[0], leaf.state, Ctx(tc, F.func, None, 0))
+                except Undecided as exc:
+                    raise AnalysisError(f'limit block: the reason passed to RangeError is not readable: {exc}') from exc
+                alts_ = {x.value if isinstance(x, Const) else None for _cp, x in cond_leaves(rv_)}
+                if len(alts_) != 1 or None in alts_:
+                    raise AnalysisError(f'limit block: the reason passed to RangeError is {rv_!r} on one path')
+                rtxt = alts_.pop()
+            else:
+                reason = leaf.state.env.get('reason')
+                rtxt = reason.value if isinstance(reason, Const) else None
             if not violated:
                 problems.append('an error is raised on a path where no limit is violated')
                 continue
